@@ -33,6 +33,8 @@ EXPR_FORMS = SHORTHAND_FORMS + [
     "true", "false", "nil", "null", "empty", "blank",
     "not a", "a and b", "a or b", "a == b", "a != b", "a <> b", "a < b", "a >= 1", "a contains 'x'", "x in items",
     "a and b or c", "not a and not b", "(a or b) and c", "a == empty", "a == blank",
+    "k: 1 => 2", "k: i => i.a", "k: (i) => i", "k: (1) => 2", "k: 'a' => b", "k: => 1", "k: i =>", "1 => 2", "'a' => 'b'", "(i => i", "i => => i",
+    "a: x, b: y => y", "items | map: k: 1 => 2", "items | where: k: i => i", "items | sort: key: i => i.a",
     "i => i.a", "(i, n) => n", "x => x", "() => x", "(i) => i", "(i, n, z) => z", "(i,) => i", "i => ", "(i n) => i", "items | map: i => i.a", "items | where: i => i.a == 1",
     "items | sort: 'a' | first", "a, b", "a: 1", "x y", "-", "", "[1, 2]", "a.b.", "a[", "'unclosed", "1..3", "(1..", "=>",
     "x | nosuchfilter", "x | upcase: 1", "x | slice", "x | slice: 'a', {}", "x | date", "x | t: y: 1",
@@ -60,6 +62,10 @@ TAG_HOLES = [
     "{% macro m a %}{{ a }}{% endmacro %}{% call {E} 1 %}", "{% call nosuch {E} %}",
     "{% translate v: {E} %}Hello {{ v }}{% endtranslate %}", "{% translate count: {E} %}a{% plural %}b{% endtranslate %}",
     "{% translate context: {E} %}a{% endtranslate %}", "{% translate {E} %}a{% endtranslate %}",
+    "{% tablerow i in {E} %}{{ i }}{% endtablerow %}", "{% tablerow i in items cols: {E} %}{{ i }}{% endtablerow %}",
+    "{% tablerow i in items limit: {E} offset: {E} %}{{ tablerowloop.col }}{% endtablerow %}",
+    "{% if true %}{% extends {E} %}{% endif %}", "{% for i in (1..2) %}{% extends {E} %}{% endfor %}",
+    "{% macro m %}{% extends {E} %}{% endmacro %}{% call m %}", "{% capture c %}{% extends {E} %}{% endcapture %}", "a{% extends {E} %}b{% extends 'base' %}",
     "{% extends {E} %}", "{% block {E} %}a{% endblock %}", "{% block b required {E} %}a{% endblock %}",
     "{% liquid assign v = {E}\n echo v %}", "{% liquid\nif {E}\n echo 'a'\nendif %}", "{% liquid for i in {E}\n echo i\nendfor %}",
     "{% liquid cycle {E}, 'b' %}", "{% liquid case {E}\nwhen {E}\n echo 1\nendcase %}",
@@ -71,7 +77,8 @@ TAG_HOLES = [
     "{{ a[{E}] }}", "{{ a[{E}].b }}",
 ]
 
-EXPR_TEMPLATES = {"p": "[{{ v }}{{ p }}]", "base": "{% block b %}B{% endblock %}"}
+EXPR_TEMPLATES = {"p": "[{{ v }}{{ p }}]", "base": "{% block b %}B{% endblock %}",
+                  "callm": "{% call m %}", "extmacro": "{% macro m %}{% extends 'base' %}{% endmacro %}{% include 'callm' %}"}
 EXPR_DATA = {
     "x": "hello", "y": "World", "a": {"b": {"c": 1}, "k": [1, 2], "e": 2}, "b": 1, "c": {"d": "k"}, "items": [{"a": 1}, {"a": 2}, {"b": 3}],
     "v": 3, "i": 0, "n": 2,
@@ -305,6 +312,19 @@ def shaped_values() -> list[Any]:
         {"a": [1]}, {"a": 1, "b": {"c": []}}, {}, [], [1], {"size": -1, "first": [], "last": {}}, (1, 2), range(3), range(0),
         None, True, False, 0, -1, 1.5, [10 ** 5000, 1], {"a": 10 ** 5000}, "\u00e9", ["b", "a", None, 2, 1.5, [1]],
     ]
+    import collections
+    from decimal import Decimal
+
+    dd: Any = collections.defaultdict(list)
+    dd["a"] = 1
+    dd["b"] = [2]
+    dd2: Any = collections.defaultdict(lambda: collections.defaultdict(int))
+    dd2["k"]["n"] = 1
+    out += [Decimal("NaN"), Decimal("sNaN"), Decimal("Infinity"), Decimal("-Infinity"), Decimal("1.5"), Decimal("1E+400"),
+            [Decimal("NaN"), Decimal(1), 2], [Decimal("sNaN"), 1.5], {"a": Decimal("sNaN")}, dd, dd2,
+            range(0, 10 ** 30), range(-(10 ** 30), 10 ** 30, 7), range(10 ** 30, 0, -1), [range(0, 10 ** 30)],
+            collections.OrderedDict(a=1), collections.Counter("aab"), frozenset([1, 2]), {1, 2}, b"bytes", bytearray(b"x"),
+            complex(1, 2), 1j, object]
     try:
         from liquid2.builtin.tags.for_tag import ForLoop
         out.append(ForLoop(name="i-x", it=iter([1, 2, 3]), length=3, parentloop=None))
@@ -325,6 +345,11 @@ DATA_TAG_SHAPES = [
     "{% with a: x %}{{ a[y] }}{% endwith %}", "{% include 'p' with x as v %}", "{% include 'p' for x as v %}", "{% render 'p', v: x %}", "{% render 'p' for x as v %}",
     "{% translate count: x %}a{% plural %}b{% endtranslate %}", "{% translate v: x %}Hi {{ v }}{% endtranslate %}", "{{ \"a${x}b${ y }\" }}",
     "{% macro m a, b: x %}{{ a }}{{ b }}{% endmacro %}{% call m y, b: z %}", "{% increment x %}", "{% tablerow i in x cols: y limit: z %}{{ i }}{% endtablerow %}",
+    "{% for k in x %}{{ x.zzz }}{{ x[k[0]] }}{{ x.q.r }}{% endfor %}", "{% for k in x %}{% for j in x %}{{ x[y] }}{% endfor %}{% endfor %}",
+    "{{ x.size }}{{ x | size }}{{ x | first }}{{ x | last }}", "{% include x %}", "{% include 'p' with x %}{% render 'p' with x as v %}",
+    "{% translate context: x %}a{% endtranslate %}", "{% translate context: x, count: y %}a{% plural %}b{% endtranslate %}", "{{ 'a' | t: x }}{{ 'a' | t: y, z: x }}",
+    "{% tablerow i in x cols: y %}{% for q in tablerowloop %}{{ q }}{% endfor %}{% if tablerowloop == z %}{% endif %}{% endtablerow %}",
+    "{% tablerow i in (1..3) cols: x limit: y offset: z %}{{ tablerowloop | json }}{{ tablerowloop | join }}{% endtablerow %}",
     "{% liquid assign v = x | default: y\n echo v %}", "{{ x | default: y | default: z }}", "{% for i in x %}{% for j in i %}{{ j }}{% endfor %}{% endfor %}",
 ]
 # the same with the real forloop object standing for x / y
@@ -396,3 +421,23 @@ def decoration_templates() -> tuple[dict[str, str], list[str]]:
         t.update(forms)
         entries += list(forms)
     return t, entries
+
+
+# ---------------------------------------------------------------- `translations` bound to something else
+
+TRANSLATION_SOURCES = ["{{ 'x' | t }}", "{{ 'x' | t: 'ctx' }}", "{{ 'x' | t: plural: 'xs', count: 2 }}", "{{ 'x' | gettext }}", "{{ 'x' | ngettext: 'y', 2 }}",
+                       "{{ 'x' | pgettext: 'c' }}", "{{ 'x' | npgettext: 'c', 'y', 2 }}", "{% translate %}a{% endtranslate %}",
+                       "{% translate count: 2 %}a{% plural %}b{% endtranslate %}", "{% translate context: 'c' %}a{% endtranslate %}",
+                       "{% translate context: 'c', count: n %}a {{ n }}{% plural %}b{% endtranslate %}", "{{ 1.5 | decimal }}{{ 3 | currency }}{{ 'now' | datetime }}"]
+
+
+def translation_cases() -> list[tuple[str, dict[str, Any]]]:
+    vals = shaped_values()[:12] + [5, "s", [1], {}, {"gettext": 1}, None, True, object(), lambda m: m]
+    out = []
+    for src in TRANSLATION_SOURCES:
+        for v in vals:
+            out.append((src, {"translations": v, "n": 2}))
+        for name in ("locale", "timezone", "currency_code", "datetime_format", "input_timezone", "unit_length"):
+            for v in (5, [1], {}, "zz_ZZ", 10 ** 5000):
+                out.append((src, {name: v}))
+    return out
